@@ -11,6 +11,7 @@ case = {'kind': stratum, 'lits': [lit, ...]}     lit = {'form': 'cn'|'sep'|'init
   oracle (D)     : every observation has the float.hex() of Python's own float(text) (= the double nearest to the
                    exact decimal value, cross-checked with Fraction arithmetic: m * 10^e is computed exactly).
 """
+import decimal
 import math
 import os
 import random
@@ -316,9 +317,11 @@ def spell(r, x, kind):
         # a decimal just above / below the midpoint between x and its neighbour: the hard cases for rounding
         y = math.nextafter(x, math.inf if r.random() < 0.5 else -math.inf)
         if math.isfinite(y) and x != 0:
-            mid = (Decimal(x) + Decimal(y)) / 2
-            eps = Decimal(1).scaleb(mid.adjusted() - 30)
-            text = format((mid + eps * r.choice([1, -1])), '.45e')
+            with decimal.localcontext() as dctx:
+                dctx.prec = 1200       # exact midpoint (the default context would round it to 28 digits)
+                mid = (Decimal(x) + Decimal(y)) / 2
+                eps = Decimal(1).scaleb(mid.adjusted() - 30)
+                text = format((mid + eps * r.choice([1, -1])), '.45e')
         else:
             text = repr(x)
     elif s == 6:
@@ -334,7 +337,9 @@ def spell(r, x, kind):
         d = Decimal(text.strip())
         sh = r.randint(-6, 6)
         e = d.adjusted() + sh if d != 0 else r.randint(-5, 5)
-        mant = d.scaleb(-e)
+        with decimal.localcontext() as dctx:
+            dctx.prec = 1200       # exact: the default context would round the mantissa to 28 digits
+            mant = d.scaleb(-e)
         mtext = format(mant, 'f')
         pad = r.choice(['', ' ', '  '])
         if r.random() < 0.15:
